@@ -79,7 +79,7 @@ def C01(tier, seed, st):
     # shape: exactly one separator between words, none at the ends
     for ln, i in zip(lines, impl):
         f = ln.split()
-        if f[1] in LANGS and i.startswith("ok "):
+        if f[1] in LANGS and i.startswith("ok ") and "MUTATED" not in i:
             sp = gens.sep(f[1])
             ws = unhx(i[3:]).split(sp)
             n = len(unhx(f[2])) // 4 * 3
@@ -733,4 +733,164 @@ def C06(tier, seed, st):
     return res
 
 
-CHECKS = {"C01": C01, "C02": C02, "C03": C03, "C05": C05, "C06": C06, "C09": C09, "C10": C10, "C15": C15, "C16": C16}
+# ---------------------------------------------------------------- C13
+def random_op(rng, langs_pool):
+    lang = rng.choice(langs_pool)
+    k = rng.random()
+    if k < 0.22:
+        el = rng.choice(ENT_LENS + [0, 15, 33])
+        return "E %s %s" % (lang, hx(rng.randbytes(el)) if el else "-")
+    if k < 0.40:
+        n = rng.choice(WORD_COUNTS + [0, 13, 27, -3])
+        need = max(0, n + n // 3)
+        data = rng.randbytes(need + 2)
+        mode = rng.random()
+        if mode < 0.6:
+            items = [(p_, None) for p_ in gens.fragment(rng, data[:need], rng.randrange(1, 4))]
+        else:
+            cut = rng.randrange(need + 1)
+            items = [(data[:cut], rng.choice(gens.ERR_KINDS))]
+        return "N %d %s %s" % (n, lang, gens.script_str(items))
+    if k < 0.80:
+        base = rng.choice(LANGS)
+        n = rng.choice(WORD_COUNTS)
+        idx = gens.indices_of_entropy(rng.randbytes(n // 3 * 4))
+        mode = rng.random()
+        if mode < 0.25:
+            idx[-1] ^= 1
+        elif mode < 0.35:
+            idx = idx[:-1]
+        sent = gens.sentence(base, idx)
+        use = base if rng.random() < 0.7 else lang
+        return "C %s %s" % (use, hx(sent))
+    if k < 0.88:
+        return "S %s %s" % (hx(rng.choice([b"abandon about", "パスワード".encode(), b""])), hx(rng.choice([b"", b"TREZOR", "é".encode()])))
+    return "L %s" % rng.choice(langs_pool)
+
+
+def C13(tier, seed, st):
+    res = Result("C13")
+    rng = random.Random(seed)
+    q = tier == "quick"
+    pool = LANGS + UNSUPPORTED[:5]
+    hist = []
+    # every ordered pair of first-used languages (quick: a sample), validation then generation
+    pairs = [(a, b) for a in LANGS for b in LANGS]
+    for a, b in (rng.sample(pairs, 16) if q else pairs):
+        sa = hx(gens.sentence(a, gens.indices_of_entropy(rng.randbytes(16))))
+        sb = hx(gens.sentence(b, gens.indices_of_entropy(rng.randbytes(16))))
+        hist.append(["C %s %s" % (a, sa), "C %s %s" % (b, sb), "C %s %s" % (a, sb), "C %s %s" % (b, sa), "C %s %s" % (a, sa)])
+    # histories that begin with failures / unsupported values, then use the languages they might have poisoned
+    for u in UNSUPPORTED[:5]:
+        for base in (rng.sample(LANGS, 3) if q else LANGS):
+            sent = hx(gens.sentence(base, gens.indices_of_entropy(rng.randbytes(20))))
+            hist.append(["C %s %s" % (u, sent), "E %s %s" % (u, hx(rng.randbytes(16))), "C %s %s" % (base, sent), "C %s %s" % (u, sent), "L %s" % u])
+            hist.append(["C %s %s" % (base, "-"), "C %s %s" % (base, hx(b"x y z")), "C %s %s" % (u, sent), "C %s %s" % (base, sent)])
+    # slices of one backing array: a later call must not see bytes written by an earlier one
+    for _ in range(6 if q else 60):
+        lang = rng.choice(LANGS)
+        e = rng.randbytes(32)
+        hist.append(["E %s %s" % (lang, hx(e[:16])), "E %s %s" % (lang, hx(e[16:])), "E %s %s" % (lang, hx(e)), "E %s %s" % (lang, hx(e[:16]))])
+    # random histories
+    for _ in range(60 if q else 1500):
+        hist.append([random_op(rng, pool) for _ in range(rng.randrange(2, 9))])
+    # the history-free reference: every distinct op run ALONE in a fresh process
+    uniq = sorted(set(op for h in hist for op in h))
+    alone = dict(zip(uniq, common.run_impl(["Q " + op for op in uniq])))
+    res.evaluations += len(uniq)
+    def judge(op, r, sp):
+        a = alone[op].split(" BUFFERS-CHANGED")[0]
+        if r != a:
+            return "result depends on the history: alone it returns `%s`" % a[:160]
+        return judge_op_validator(op, r, sp)
+    run_Q(res, hist, judge)
+    res.streams["alone"] = len(uniq)
+    res.notes.append("E ops in a history keep the caller's entropy slice and every returned seed/string alive and re-inspect them after the last call; sub-slices of one backing array are passed as separate arguments")
+    return res
+
+
+# ---------------------------------------------------------------- C14
+def C14(tier, seed, st):
+    res = Result("C14")
+    rng = random.Random(seed)
+    q = tier == "quick"
+    lines, big = [], []
+    span = 3000 if q else 70000
+    langvals = list(range(-span, span + 1, 1 if not q else 7)) + list(range(-300, 301))
+    for k in (7, 8, 15, 16, 31, 32, 62, 63):
+        for d in (-1, 0, 1):
+            for sg in (1, -1):
+                v = sg * 2 ** k + d
+                if -2 ** 63 <= v < 2 ** 63:
+                    langvals.append(v)
+    sent = hx(gens.sentence("English", gens.indices_of_entropy(bytes(16))))
+    for v in langvals:
+        lines.append("L %d" % v)
+        lines.append("C %d %s" % (v, sent))
+        lines.append("E %d %s" % (v, hx(rng.randbytes(rng.choice(ENT_LENS)))))
+        if v % 5 == 0:
+            lines.append("N %d %d %s" % (rng.choice(WORD_COUNTS), v, gens.script_str([(rng.randbytes(33), None)])))
+    # entropy: nil, short, oversized
+    for n in list(range(0, 80)) + [127, 128, 255, 256, 1000, 4096, 65536]:
+        lines.append("E %s %s" % (rng.choice(LANGS), hx(rng.randbytes(n)) if n else rng.choice(["-", "nil"])))
+    # word counts
+    for c in list(range(-50, 60)) + [2 ** 31 - 1, -2 ** 31, 2 ** 63 - 1, -2 ** 63, 2 ** 62 + 12, 2 ** 62 + 24, -2 ** 63 + 12, 2 ** 32 + 12]:
+        lines.append("N %d %s %s" % (c, rng.choice(LANGS), gens.script_str([(rng.randbytes(40), None)])))
+        lines.append("N %d %s -" % (c, rng.choice(LANGS)))
+    # strings: empty, invalid UTF-8, lone surrogates, overlong forms, combining runs, long tokens, many separators
+    weird = [b"", b" ", b"  "] + [bytes.fromhex(h) for h in ("ff", "c080", "eda080", "f4908080", "e380", "00", "610062", "80" * 64, "f09f9880" * 30)]
+    weird += [chr(0x301).encode() * 40, chr(0x1161).encode() * 40, chr(0xFDFA).encode() * 20, " ".join([chr(0x8A9E) * 20] * 12).encode(),
+              (" " * 23).encode(), (chr(0x3000) * 11).encode(), (chr(0xE9) * 50).encode()]
+    for w in weird:
+        for lang in (rng.sample(LANGS, 3) + ["-1"]):
+            lines.append("C %s %s" % (lang, hx(w)))
+            # as one token of an otherwise acceptable sentence
+            ws = [b"abandon"] * 11 + [w]
+            lines.append("C %s %s" % (lang, hx(b" ".join(ws))))
+        lines.append("S %s %s" % (hx(w), hx(w)))
+    for _ in range(150 if q else 3000):
+        n = rng.choice((1, 2, 3, 7, 30, 200))
+        b = rng.randbytes(n)
+        lines.append("C %s %s" % (rng.choice(LANGS + ["77"]), hx(b)))
+        lines.append("C %s %s" % (rng.choice(LANGS), hx(b" ".join(rng.randbytes(rng.randrange(1, 5)) for _ in range(rng.choice(WORD_COUNTS))))))
+        if n < 40:
+            lines.append("S %s %s" % (hx(b), hx(rng.randbytes(n))))
+    # huge inputs: implementation only (under recover and a wall-clock limit)
+    for size in ((1 << 16, 1 << 18) if q else (1 << 16, 1 << 20, 1 << 22)):
+        for mk in (lambda k: b"a" * k, lambda k: b"abandon " * (k // 8), lambda k: rng.randbytes(k), lambda k: ("́".encode() * (k // 2)), lambda k: b" " * k):
+            b = mk(size)
+            big.append("C %s %s" % (rng.choice(LANGS), hx(b)))
+            big.append("S %s %s" % (hx(b[:size // 4]), hx(b[:1000])))
+        big.append("E English %s" % hx(rng.randbytes(size)))
+    impl = common.run_impl(lines)
+    model = common.run_model(lines, "model")
+    bi = common.run_impl(big, shards=4)
+    for ln, i in zip(lines + big, impl + bi):
+        res.evaluations += 1
+        f = ln.split()
+        res.count(f[0] + ("/huge" if len(ln) > 100000 else ""))
+        res.nontrivial.add(ln if len(ln) < 400 else hashlib.sha256(ln.encode()).hexdigest())
+        if "panic" in i.split() or "hang" in i.split() or i.startswith("panic") or "valid=panic" in i or "valid=hang" in i:
+            res.violation(stream=f[0], case=ln if len(ln) < 4000 else ln[:200] + "...(%d hex digits)" % len(ln), impl=i[:300], model="", spec="returns normally",
+                          why="an exported function panicked or did not return")
+    for ln, i, m in zip(lines, impl, model):
+        f = ln.split()
+        if f[0] == "S":
+            continue
+        a = i.rsplit(" reads=", 1)[0] if f[0] == "N" else strip_impl_E(i)
+        if f[0] == "C":
+            # outside xsafe only the verdict is comparable; cheap test: compare classes by kind
+            same = kind(parse_C(a)[0]) == kind(parse_C(m)[0]) and parse_C(a)[1] == parse_C(m)[1]
+        else:
+            same = a == m
+        if not same and "panic" not in i:
+            res.corr_break(stream=f[0], case=ln[:2000], impl=i[:300], model=m[:300], why="model and implementation differ")
+    res.sample({"case": "L -1", "impl": impl[lines.index("L -1")]})
+    res.sample({"case": lines[-1][:120], "impl": impl[-1][:120]})
+    res.sample({"huge": "%d-byte inputs" % (len(big[0]) // 2), "impl": bi[0][:80]})
+    res.streams["malformed"] = len(lines)
+    res.streams["huge"] = len(big)
+    return res
+
+
+CHECKS = {"C13": C13, "C14": C14, "C01": C01, "C02": C02, "C03": C03, "C05": C05, "C06": C06, "C09": C09, "C10": C10, "C15": C15, "C16": C16}
